@@ -150,6 +150,18 @@ func suiteC15(s *Suite, rng *Rng, tier string) {
 			}
 		}
 	}
+	// IntHashSha256 hashes the bytes as given: leading zero bytes count
+	for _, b := range [][]byte{{}, {0}, {0, 0}, {1}, {0, 1}, {0, 0, 1}, {1, 0}, {0, 1, 0}, make([]byte, 32), make([]byte, 64), append([]byte{0}, []byte("abc")...), []byte("abc")} {
+		s.Add(1503, fmt.Sprintf("sha:leading-zeros:%d", len(b)), true, b, gabi.VerifIntHashSha256(b))
+	}
+	for rep := 0; rep < 8; rep++ {
+		b := make([]byte, 1+rng.Intn(70))
+		rng.Read(b)
+		for z := 0; z < 1+rng.Intn(3) && z < len(b); z++ {
+			b[z] = 0
+		}
+		s.Add(1503, "sha:leading-zeros:random", rep < 2, b, gabi.VerifIntHashSha256(b))
+	}
 	// IntHashSha256 over padding boundaries
 	lens := []int{0, 1, 55, 56, 57, 63, 64, 65, 119, 120, 121, 127, 128, 129, 1000}
 	for rep := 0; rep < 4; rep++ {
